@@ -359,9 +359,13 @@ impl Optimizer {
                         // side's NON-KEY columns, so a right-side index is mapped through
                         // that column list (not just shifted by the left width).
                         let right_cols = Self::right_output_columns(&right, &right_keys);
-                        let right_in_range = pred_cols
-                            .iter()
-                            .all(|&c| c >= left_cols && c - left_cols < right_cols.len());
+                        // ...and only when the inputs' schemas account for the join's own
+                        // output schema: an empty Union (e.g. an eliminated always-false
+                        // branch in front of a Union) reports no columns at all.
+                        let right_in_range = left_cols + right_cols.len() == output_schema.len()
+                            && pred_cols
+                                .iter()
+                                .all(|&c| c >= left_cols && c - left_cols < right_cols.len());
 
                         if refs_left && !refs_right {
                             // Predicate only references left side - push down to left
